@@ -48,7 +48,7 @@ fn c03(args: &Args) -> i32 {
         spec,
         tier: args.tier,
         seed: args.seed,
-        runs: runs(args, 60_000, 4_000_000),
+        runs: runs(args, 300_000, 6_000_000),
         workers: args.workers,
     };
     drive(
@@ -81,7 +81,7 @@ fn c04(args: &Args) -> i32 {
         spec,
         tier: args.tier,
         seed: args.seed,
-        runs: runs(args, 60_000, 4_000_000),
+        runs: runs(args, 300_000, 6_000_000),
         workers: args.workers,
     };
     drive(
@@ -112,7 +112,7 @@ fn c14(args: &Args) -> i32 {
         spec,
         tier: args.tier,
         seed: args.seed,
-        runs: runs(args, 20_000, 1_000_000),
+        runs: runs(args, 100_000, 2_000_000),
         workers: args.workers,
     };
     drive(
@@ -150,7 +150,7 @@ fn c_disk(args: &Args, prop: &'static str) -> i32 {
         spec,
         tier: args.tier,
         seed: args.seed,
-        runs: runs(args, if c06 { 3_000 } else { 4_000 }, if c06 { 150_000 } else { 200_000 }),
+        runs: runs(args, if c06 { 20_000 } else { 40_000 }, if c06 { 400_000 } else { 1_000_000 }),
         workers: args.workers,
     };
     drive(
